@@ -334,3 +334,62 @@ def describe(recipe: Any) -> Any:
         else:
             d[fname] = [describe(c) for c in val]
     return d
+
+
+# ------------------------------------------------------------ recipe utilities
+def positions_of(recipe: Any) -> list[list[tuple[str, int | None]]]:
+    """Paths (lists of (field, index)) of every position of a recipe, pre-order, root first."""
+    out: list[list[tuple[str, int | None]]] = [[]]
+
+    def rec(r: Any, path: list) -> None:
+        for fname, idx, crec in kids_of(r):
+            p = path + [(fname, idx)]
+            out.append(p)
+            rec(crec, p)
+
+    rec(recipe, [])
+    return out
+
+
+def edit_at(recipe: Any, path: list[tuple[str, int | None]], fn: Any) -> Any:
+    """A copy of the recipe in which the sub-recipe at `path` is replaced by fn(sub-recipe)."""
+    if not path:
+        return fn(recipe)
+    cls, props, origin_, kids = recipe
+    (fname, idx), rest = path[0], path[1:]
+    nk = []
+    for f, val in kids:
+        if f != fname:
+            nk.append((f, val))
+        elif idx is None:
+            nk.append((f, edit_at(val, rest, fn)))
+        else:
+            nk.append((f, tuple(edit_at(c, rest, fn) if i == idx else c for i, c in enumerate(val))))
+    return (cls, props, origin_, tuple(nk))
+
+
+def with_origin(recipe: Any, path: list[tuple[str, int | None]], key: str | None) -> Any:
+    return edit_at(recipe, path, lambda r: (r[0], r[1], key, r[3]))
+
+
+def sub_recipe(recipe: Any, path: list[tuple[str, int | None]]) -> Any:
+    r = recipe
+    for fname, idx in path:
+        val = dict(r[3])[fname]
+        r = val if idx is None else val[idx]
+    return r
+
+
+def node_at(node: Any, path: list[tuple[str, int | None]]) -> Any:
+    n = node
+    for fname, idx in path:
+        val = getattr(n, fname)
+        n = val if idx is None else val[idx]
+    return n
+
+
+def origin_class(key: str | None) -> str:
+    """Origins that compare equal share a class: 'a2' is an equal-but-distinct copy of 'a'."""
+    if key is None:
+        return "no"
+    return "a" if key == "a2" else key
